@@ -25,6 +25,7 @@ import (
 	"bytes"
 	"fmt"
 	"io"
+	"reflect"
 	"sort"
 	"testing"
 
@@ -216,6 +217,75 @@ type verifC17RbfExch struct {
 	closeeTx *wire.MsgTx
 	closerTx *wire.MsgTx
 	judged   bool
+	// delivery scripts of THIS round, indexed by party: the closer's is the
+	// script the harness asked it to use for this offer, the closee's is the
+	// latest script of the closee that had been delivered to the closer when
+	// it made the offer.
+	scripts [2][]byte
+	changed bool // the closer announces a new closer script with this offer
+}
+
+// verifC17RbfNewScriptOffer is a harness-only item of a party's local event
+// queue: before the SendOfferEvent is handed to the party's machine the
+// party's own delivery script is replaced by script (BOLT-2 simple close: every
+// closing_complete may name a new closer_scriptpubkey). lnd has no public event
+// for this, so the harness rewrites the LOCAL script in the close terms of the
+// offering party's machine; the receiving side is untouched. The item never
+// reaches ProcessEvent.
+type verifC17RbfNewScriptOffer struct {
+	script []byte
+	offer  *SendOfferEvent
+}
+
+func (*verifC17RbfNewScriptOffer) protocolSealed() {}
+
+// verifC17RbfSetLocalScript stores s as the local delivery script in every
+// CloseChannelTerms reachable from the party's state (however the states share
+// or copy the terms); returns the number of terms written.
+func verifC17RbfSetLocalScript(st RbfState, s []byte) int {
+	n := 0
+	seen := map[uintptr]bool{}
+	termsT := reflect.TypeOf(CloseChannelTerms{})
+	var walk func(v reflect.Value, depth int)
+	walk = func(v reflect.Value, depth int) {
+		if depth > 8 || !v.IsValid() {
+			return
+		}
+		switch v.Kind() {
+		case reflect.Interface:
+			if !v.IsNil() {
+				walk(v.Elem(), depth+1)
+			}
+		case reflect.Ptr:
+			if v.IsNil() || seen[v.Pointer()] {
+				return
+			}
+			if v.Elem().Kind() == reflect.Struct {
+				seen[v.Pointer()] = true
+				walk(v.Elem(), depth+1)
+			}
+		case reflect.Struct:
+			if v.Type() == termsT {
+				f := v.FieldByName("LocalDeliveryScript")
+				if f.IsValid() && f.CanSet() {
+					f.Set(reflect.ValueOf(append([]byte(nil), s...)).Convert(f.Type()))
+					n++
+				}
+				return
+			}
+			if v.Type().PkgPath() != termsT.PkgPath() && v.Type().Name() != "" &&
+				v.Type().PkgPath() != "github.com/lightningnetwork/lnd/lntypes" {
+
+				// foreign structs (transactions, keys, ...).
+				return
+			}
+			for i := 0; i < v.NumField(); i++ {
+				walk(v.Field(i), depth+1)
+			}
+		}
+	}
+	walk(reflect.ValueOf(st), 0)
+	return n
 }
 
 type verifC17RbfParty struct {
@@ -252,6 +322,11 @@ type verifC17RbfRun struct {
 	txs     int
 	log     []string
 	failed  bool
+	// known[j]: party (1-j)'s delivery script as last delivered to party j
+	// (shutdown, then the closer_scriptpubkey of every closing_complete).
+	known [2][]byte
+	// changes[k]: new closer scripts party k has announced.
+	changes [2]int
 }
 
 func (x *verifC17RbfRun) logf(format string, a ...any) {
@@ -278,8 +353,8 @@ func (x *verifC17RbfRun) judgeTx(ex *verifC17RbfExch, tx *wire.MsgTx, holder str
 	c := ex.closer
 	w := x.owned
 	w[c] -= ex.fee
-	ctx := fmt.Sprintf("type %s opener %d closer %d iter %d fee %d owned %v raw %v dust %v holder %s",
-		x.p.TypeName, x.oi, c, ex.iter, ex.fee, x.owned, x.raw, x.dust, holder)
+	ctx := fmt.Sprintf("type %s opener %d closer %d iter %d fee %d owned %v raw %v dust %v holder %s newCloserScript %v",
+		x.p.TypeName, x.oi, c, ex.iter, ex.fee, x.owned, x.raw, x.dust, holder, ex.changed)
 
 	x.vc.Count("oracle_unaffordable_no_tx", 1)
 	if w[c] < 0 {
@@ -296,7 +371,7 @@ func (x *verifC17RbfRun) judgeTx(ex *verifC17RbfExch, tx *wire.MsgTx, holder str
 	var exp, got []out
 	for k := 0; k < 2; k++ {
 		if w[k] >= x.dust[k] {
-			exp = append(exp, out{w[k], fmt.Sprintf("%x", x.scripts[k])})
+			exp = append(exp, out{w[k], fmt.Sprintf("%x", ex.scripts[k])})
 		}
 	}
 	var sum int64
@@ -319,7 +394,7 @@ func (x *verifC17RbfRun) judgeTx(ex *verifC17RbfExch, tx *wire.MsgTx, holder str
 		x.viol("coop_exact_outputs", fmt.Sprintf("rbf:closerIsOpener=%v,nexp=%d,ngot=%d",
 			c == x.oi, len(exp), len(got)),
 			fmt.Sprintf("closing tx outputs %v, the statement prescribes %v (scripts %x / %x): %s",
-				got, exp, x.scripts[0], x.scripts[1], ctx))
+				got, exp, ex.scripts[0], ex.scripts[1], ctx))
 		return
 	}
 	x.vc.Count("oracle_capacity", 1)
@@ -376,9 +451,38 @@ func (x *verifC17RbfRun) daemon(k int, ev ProtocolEvent, d protofsm.DaemonEvent)
 				x.logf("%d -> shutdown script %x", k, mm.Address)
 			case *lnwire.ClosingComplete:
 				x.iters[k]++
-				x.cur[k] = &verifC17RbfExch{closer: k, iter: x.iters[k], fee: int64(mm.FeeSatoshis),
+				ex := &verifC17RbfExch{closer: k, iter: x.iters[k], fee: int64(mm.FeeSatoshis),
 					propTx: p.signer.lastTx}
+				ex.scripts[k] = x.scripts[k]
+				ex.scripts[1-k] = x.known[k]
+				if x.cur[k] != nil && !bytes.Equal(x.cur[k].scripts[k], x.scripts[k]) {
+					ex.changed = true
+					x.changes[k]++
+					x.vc.Count("rbf_script_changes", 1)
+					x.logf("%d announces new closer script %x", k, x.scripts[k])
+				}
+				x.cur[k] = ex
 				x.vc.Count("closing_complete_sent", 1)
+				if !bytes.Equal(mm.CloserScript, x.scripts[k]) {
+					x.viol("rbf_harness", "closer-script-not-the-requested-one", fmt.Sprintf(
+						"party %d was given delivery script %x, its closing_complete names %x",
+						k, x.scripts[k], mm.CloserScript))
+					return false
+				}
+				// each party's output must go to the script that party
+				// asked for: the offer has to pay the peer to the latest
+				// script the peer has announced to us.
+				x.vc.Count("oracle_peer_script", 1)
+				if x.changes[1-k] > 0 {
+					x.vc.Count("oracle_peer_script_after_change", 1)
+				}
+				if !bytes.Equal(mm.CloseeScript, x.known[k]) {
+					x.vc.Count("oracle_exact_outputs", 1)
+					x.viol("coop_exact_outputs", "rbf:stale-peer-script", fmt.Sprintf(
+						"closer %d offer %d (fee %d, type %s, opener %d) pays the peer to %x, the latest script the peer announced to it is %x",
+						k, x.iters[k], mm.FeeSatoshis, x.p.TypeName, x.oi, mm.CloseeScript, x.known[k]))
+					return false
+				}
 				if int64(mm.FeeSatoshis) > x.owned[k] {
 					x.vc.Count("unaffordable_offer_sent", 1)
 				}
@@ -550,8 +654,14 @@ func (x *verifC17RbfRun) after(k int, ev ProtocolEvent) {
 		if k == x.oi {
 			x.vc.Count("closer_is_opener", 1)
 		}
+		if ex.changed {
+			x.vc.Count("rbf_script_change_closes", 1)
+		}
+		if x.changes[1-k] > 0 {
+			x.vc.Count("closes_after_closee_script_change", 1)
+		}
 		x.vc.Sig(fmt.Sprint(x.p.TypeName, k == x.oi, ex.iter, w[k] < x.dust[k], w[1-k] < x.dust[1-k],
-			x.early, p.obs.link))
+			x.early, p.obs.link, ex.changed, x.changes[1-k] > 0))
 
 	case *SendOfferEvent:
 		if ce, ok := p.localPeerState().(*CloseErr); ok {
@@ -657,6 +767,10 @@ func (x *verifC17RbfRun) step(r *lnwallet.VerifRng) bool {
 	if !c.wire {
 		ev := p.localIn[0]
 		p.localIn = p.localIn[1:]
+		if ns, ok := ev.(*verifC17RbfNewScriptOffer); ok {
+			x.offerNewScript(c.k, ns)
+			return true
+		}
 		x.apply(c.k, ev)
 		return true
 	}
@@ -667,6 +781,12 @@ func (x *verifC17RbfRun) step(r *lnwallet.VerifRng) bool {
 		x.viol("rbf_wire_roundtrip", "decode", fmt.Sprintf("%v: %x", err, raw))
 		return true
 	}
+	switch mm := m.(type) {
+	case *lnwire.Shutdown:
+		x.known[c.k] = append([]byte(nil), mm.Address...)
+	case *lnwire.ClosingComplete:
+		x.known[c.k] = append([]byte(nil), mm.CloserScript...)
+	}
 	evOpt := p.mapper.MapMsg(msgmux.PeerMsg{Message: m, PeerPub: p.env.ChanPeer})
 	if evOpt.IsNone() {
 		x.viol("rbf_harness", fmt.Sprintf("unmapped:%T", m), "the msg mapper does not map the peer's message")
@@ -674,6 +794,29 @@ func (x *verifC17RbfRun) step(r *lnwallet.VerifRng) bool {
 	}
 	evOpt.WhenSome(func(ev ProtocolEvent) { x.apply(c.k, ev) })
 	return true
+}
+
+// offerNewScript: party k makes an offer as closer that names a new delivery
+// script of its own. When no closing_complete leaves the machine (fee not
+// payable, ...) nothing was announced and the old script stays in force.
+func (x *verifC17RbfRun) offerNewScript(k int, ns *verifC17RbfNewScriptOffer) {
+	p := x.parties[k]
+	old := x.scripts[k]
+	if _, busy := p.localPeerState().(*LocalOfferSent); busy || p.localPeerState() == nil ||
+		p.env.LocalUpfrontShutdown.IsSome() || verifC17RbfSetLocalScript(p.state, ns.script) == 0 {
+
+		x.vc.Count("script_change_not_possible", 1)
+		x.apply(k, ns.offer)
+		return
+	}
+	x.scripts[k] = ns.script
+	sent := x.iters[k]
+	x.apply(k, ns.offer)
+	if x.iters[k] == sent && p.dead == nil && !x.failed {
+		x.vc.Count("script_change_not_announced", 1)
+		verifC17RbfSetLocalScript(p.state, old)
+		x.scripts[k] = old
+	}
 }
 
 func (x *verifC17RbfRun) drain(r *lnwallet.VerifRng) {
@@ -904,6 +1047,21 @@ func verifC17RbfCase(vc *lnwallet.VerifCtx, i int) {
 
 	// further offers (RBF): each side in PRNG order, sometimes while the
 	// other direction's exchange is still in flight.
+	// a third of the trials: one or both parties name a NEW delivery script
+	// in (most of) their 2nd/3rd offers as closer. Own PRNG stream, so the
+	// other choices of the trial are what they were without this.
+	rs := vc.Rng(i).Fork("c17-rbf-script-change")
+	var changer [2]bool
+	if rs.Chance(1, 3) {
+		switch rs.Intn(3) {
+		case 0:
+			changer[0] = true
+		case 1:
+			changer[1] = true
+		default:
+			changer[0], changer[1] = true, true
+		}
+	}
 	next := [2]int{1, 1}
 	for !x.failed {
 		var cand []int
@@ -924,8 +1082,12 @@ func verifC17RbfCase(vc *lnwallet.VerifCtx, i int) {
 			}
 			continue
 		}
-		x.parties[k].localIn = append(x.parties[k].localIn,
-			&SendOfferEvent{TargetFeeRate: rate(plan[k][next[k]])})
+		var offer ProtocolEvent = &SendOfferEvent{TargetFeeRate: rate(plan[k][next[k]])}
+		if changer[k] && rs.Chance(3, 4) {
+			offer = &verifC17RbfNewScriptOffer{script: verifC17RbfScript(rs),
+				offer: offer.(*SendOfferEvent)}
+		}
+		x.parties[k].localIn = append(x.parties[k].localIn, offer)
 		next[k]++
 		if r.Chance(2, 3) {
 			x.drain(r)
@@ -947,9 +1109,13 @@ func verifC17RbfCase(vc *lnwallet.VerifCtx, i int) {
 	if x.done[0] > 0 && x.done[1] > 0 {
 		vc.Count("both_sides_closed", 1)
 	}
+	if x.changes[0] > 0 && x.changes[1] > 0 {
+		vc.Count("both_parties_changed_script", 1)
+	}
 	if i%40 == 0 {
 		vc.Sample(map[string]any{"case": i, "type": p.TypeName, "opener": x.oi, "initiator": ci, "plan": plan,
-			"owned": x.owned, "dust": x.dust, "completed": x.done, "offers": x.iters, "trace": x.log})
+			"owned": x.owned, "dust": x.dust, "completed": x.done, "offers": x.iters, "script_changes": x.changes,
+			"trace": x.log})
 	}
 }
 
